@@ -37,6 +37,21 @@ CHECKS = {
              "and note sets in scope), replays the terminal states into the real parser and judges seeded long tracks with up to 40 phrases by "
              "TLC evaluating Props!C05V (half-open cover, first covering phrase).",
         design="5 (C05)", technique="TLA+ model checking (TLC) of the cursor machine + spec->code replay + TLC trace validation"),
+    "C08": dict(
+        text="Every tempo value n of a swept range (all n up to 3*10^4 quick / 2*10^6 thorough plus stratified values up to 10^9), time signatures "
+             "(u in 0..99 and large, l absent / 0..16), anchors and ticks with 1-18 digits and leading zeros are decoded by the real parser; TLC judges each "
+             "recorded value with exact BigNat arithmetic (Props!C08V: the float m*2^e is within half an ulp of n/1000; 2^l; exact microseconds; digit-exact ticks).",
+        design="5 (C08)", technique="TLC trace validation with exact limb arithmetic (BigNat.tla) of values recorded from the parser"),
+    "C19": dict(
+        text="TLC enumerates every sequence of read-only operations (32 operation forms, length <= 2 quick / <= 3 thorough) of ChartObject.tla, whose every action leaves "
+             "the abstract chart unchanged (the auto-inserting design variant is shown to violate Immutable); each sequence is replayed on a freshly parsed real chart "
+             "and after every step TLC judges the recorded full projection, twin equality both ways and renderings (Props!C19V); longer sequences are seeded.",
+        design="5 (C19)", technique="TLA+ model checking (TLC) of operation sequences + spec->code replay with observation after each step"),
+    "C20": dict(
+        text="The import graph is extracted from the working tree (ast) into Imports.tla; TLC explores every client import order of the 12 modules (NoImportError, ExecOnce, "
+             "SameNamesAtEnd); all 12 first imports, all 132 ordered pairs and seeded full permutations run in fresh interpreters, and TLC validates each interpreter's "
+             "module-execution trace against the model and judges success and the public-name / object-identity table.",
+        design="5 (C20)", technique="TLA+ model checking (TLC) of the extracted import graph + trace validation of real interpreter import traces"),
 }
 
 PENDING = {}
